@@ -86,6 +86,16 @@ CLAIMS = {
          'TLC explores operation histories of length <= 2 (thorough 3) over maps <= 3 entries with a 13-18 key alphabet (numeric keys across types, NaN, string/anyURI/untypedAtomic, boolean, date, QName) and arrays <= 3 members, proves get/put/remove/size/merge laws, 1-based FOAY0001/FOAY0002 list model, deep-equal equivalence and that no action changes an existing handle (and must refute Immutable for an in-place variant); 37k edges are replayed (185k evaluations) and after each one every operand and earlier value is re-projected and compared.',
          'the library flattens arrays in select() results (API convention, not judged: values are read back through map{0:(EXPR)}); python lists cross-check the array operators of the spec only',
          'DESIGN.md section 4 C15'),
+ 'C02': ('model_checking',
+         'TLA+ specs XTree (abstract input and definitional document order / parent / children / string value), TreeBuild (step machine transcribing build_node_tree and build_lxml_node_tree: position counter, iterator/ancestor stacks, the reserved gap, lazy namespace/attribute nodes, lxml document-level siblings) with the refinement invariants, NodeOps (is, <<, >>, union/intersect/except, innermost/outermost/root) and TraceTreeBuild (trace validation of larger real trees); every behaviour replayed through get_node_tree / build_node_tree / build_lxml_node_tree / XPathContext and the operators as XPath expressions; libxml2 second oracle for the spec',
+         'TLC runs the builder step machine on every input tree in bounds (N<=4 shapes, attributes 0..2, namespace declarations, xml prefix, text/tail, lxml document-level siblings, root x fragment x namespaces configurations: 18.5k behaviours) and proves faithful, strictly increasing, parent/children-consistent node trees including lazily created nodes inside the gap; each behaviour is built by the real builders through three entry points and compared node by node; NodeOps graphs (113k edges) are replayed as expressions; 240 random real trees of 10-60 items are recorded as (kind, position, parent) traces and validated by TLC against TreeBuild.',
+         'exact position numbers are diagnostic only (the property demands uniqueness and order); attribute and namespace-node order inside one element compared as a set; xmlns="" undeclaration and empty text chunks excluded; nodes of different trees under << not modelled',
+         'DESIGN.md section 4 C02'),
+ 'C13': ('model_checking',
+         'TLA+ specs CodePointSet (abstract set algebra with canonical representation), CodePointSetImpl (transcription of UnicodeSubset add/discard/contains/iter/complement/update and the set operators, as-implemented and repaired variants), CodePointPieces, UnicodeTables (laws over category/block tables EXPORTED from /repo) and CodePointSetInd (Apalache inductive step); every transition replayed on real UnicodeSubset / CharacterClass objects through four offset windows incl. the top of the code space; table obligations checked by TLC; point-wise unicodedata sweep as plain harness',
+         'TLC explores every operation from every subset of a 7-point universe (8/10 in thorough) with all argument forms, proves the set laws and canonicity on the abstract model, refutes canonicity for the as-implemented transcription and proves it for the repaired one; 817k transitions are replayed on the real classes (membership, iteration, len, ==, raw list) in windows at 1, 65, 0xD7FD and 0x10FFFA; the exported category and block tables of the installable Unicode versions must satisfy 8955 partition/disjointness obligations.',
+         'transitions whose implementation walks every integer of a million-code-point block are replayed on a sample (exhaustive=false, count in the evidence); the unicodedata.category equality for all 0x110000 code points is a harness sweep, not model checking; Apalache proof only in thorough',
+         'DESIGN.md section 4 C13'),
 }
 NOT_YET = 'check not built yet (construction in progress, see DESIGN.md section 5)'
 
